@@ -8,6 +8,7 @@
  *
  * VP_MODE: build (arena + exact heap), VP_SEED, VP_REPS, VP_PLACE.
  */
+#define VP_PROGRESS 1
 #include "vp.h"
 #include "avtp/acf/Can.h"
 #include "avtp/acf/CanBrief.h"
@@ -44,8 +45,10 @@ static void model(uint8_t* s, int brief, uint32_t id, const uint8_t* payload, ui
     bf_set(s, POS_FDF, 1, (uint64_t)(fd != 0));
 }
 
+static int g_nullempty;
 static void run_builder(int b, uint8_t* p, uint32_t id, uint8_t* payload, uint32_t L, int fd, int* ret)
 {
+    if (L == 0 && g_nullempty && (id & 1) && b != B_BRIEF_SPLIT) payload = 0;     /* a frame without data described by a null pointer */
     Avtp_CanVariant_t var = fd ? AVTP_CAN_FD : AVTP_CAN_CLASSIC;
     *ret = -1;
     switch (b) {
@@ -85,11 +88,13 @@ static uint32_t id_class(vp_rng_t* r, uint32_t k)
 
 int main(void)
 {
+    vp_watchdog_start();       /* these monitors call the library continuously: a long silence is a spinning call */
     vp_ctx_t* c = &g_ctx;
     uint64_t seed = vp_cfg_u64("SEED", 1);
     uint64_t reps = vp_cfg_u64("REPS", 4);
     uint64_t maxlen = vp_cfg_u64("MAXLEN", 64);
     g_place = (uint32_t)vp_cfg_u64("PLACE", 0);
+    g_nullempty = (int)vp_cfg_u64("NULLEMPTY", 0);
     vp_ctx_init(c, seed, 0xCA0);
     c->tdump = (int)vp_cfg_u64("DUMP", 0);
     vp_arena_t a;
